@@ -46,6 +46,7 @@ structure G where
   -- a task stopped in the middle of its step (atom `!`): clock, remaining atoms, result, task, its logical time
   permanent : List Nat := []        -- TempoClocks with `permanent = True`
   wraps : Nat := 0                  -- Function wrappers made so far for plain functions
+  deferred : List Nat := []         -- model tasks made by `defer`: their wrapper returns None whatever the callable returns
   paused : Option (CK × List String × String × Nat × Rat) := none
   blocked : List (CK × List String) := []      -- calls of the second thread waiting for the lock
 
@@ -145,6 +146,15 @@ def clockOp (ck : CK) (w : List String) : M (Option String) := do
       let _ ← appMove .schedNotify
       return none
     | _, _ => modify (fun g => { g with bad := true }); return none
+  | .app, ["d", d, t] =>
+    match parseRat d, t.toNat? with
+    | some d, some t =>
+      let t ← schedTask t
+      modify fun g => { g with deferred := t :: g.deferred }
+      let _ ← appMove (.schedAdd d t g.now)
+      let _ ← appMove .schedNotify
+      return none
+    | _, _ => modify (fun g => { g with bad := true }); return none
   | .app, ["c"] => let _ ← appMove .clear; return none
   | .app, _ => modify (fun g => { g with bad := true }); return none
   | _, _ =>
@@ -165,6 +175,14 @@ def clockOp (ck : CK) (w : List String) : M (Option String) := do
         | some d, some t =>
           if stopped then return some "ClockNotRunning"
           let t ← schedTask t
+          let _ ← clockMove ck (.op (.sched (c.tempo.secs2beats g.logical + d) t)); return none
+        | _, _ => modify (fun g => { g with bad := true }); return none
+      | ["d", d, t] =>
+        match parseRat d, t.toNat? with
+        | some d, some t =>
+          if stopped then return some "ClockNotRunning"
+          let t ← schedTask t
+          modify fun g => { g with deferred := t :: g.deferred }
           let _ ← clockMove ck (.op (.sched (c.tempo.secs2beats g.logical + d) t)); return none
         | _, _ => modify (fun g => { g with bad := true }); return none
       | ["c"] =>
@@ -274,7 +292,9 @@ def runClockThread (ck : CK) : Nat → M Unit
           modify fun g => { g with paused := some (ck, rest, res, x.task, lt) }
           return
         | .ok =>
-          let _ ← clockMove ck (.finish (parseResult res))
+          let isDef := (← get).deferred.contains x.task
+          let r := if isDef && res != "x" then Result.done else parseResult res
+          let _ ← clockMove ck (.finish r)
           runClockThread ck fuel
         | .raised =>
           killTask (scriptTask x.task)
@@ -311,7 +331,9 @@ def runAppThread (stopInWindow : Bool) : Nat → M Unit
         modify fun g => { g with paused := some (.app, rest, res, x.task, x.key) }
         return
       | .ok =>
-        let _ ← appMove (.finish (parseResult res) now)
+        let isDef := (← get).deferred.contains x.task
+        let r := if isDef && res != "x" then Result.done else parseResult res
+        let _ ← appMove (.finish r now)
         runAppThread stopInWindow fuel
       | .raised =>
         killTask (scriptTask x.task)
@@ -482,7 +504,7 @@ def doLine1 (ws : List String) : M String := do
       runClockThread (.tempo i) FUEL
       takeOut
     | _, _ => return "bad-line"
-  | ["cmdp"] =>
+  | "cmdp" :: _ =>          -- (`cmdp h` = hard_run: the same for the clocks)
     -- CmdPeriod.run(): SystemClock.clear(), AppClock.clear(), then every TempoClock: clear(), and
     -- stop() unless permanent.  The library walks a set: the events of the line are sorted.
     let _ ← clockMove .sys (.op .clear)
